@@ -169,28 +169,64 @@ theorem rangeSorted_spec (names : List (List Nat)) (lo hi : Nat) (h : rangeSorte
 
 /-! ### find_instruction over checked tables -/
 
-theorem keyOf_eq (T : NameTables) (names : List (List Nat)) (h : decodeOk T names = true) (i : Nat) (hi : i < T.count) :
-    keyOf T i = names.getD i [] := by
+theorem decode_at (T : NameTables) (names : List (List Nat)) (h : decodeOk T names = true) (i : Nat) (hi : i < T.count) :
+    decodeToBuffer (T.nametab.getD i 0) false T.strtab = names.getD i [] := by
   simp only [decodeOk, Bool.and_eq_true, beq_iff_eq, List.all_eq_true] at h
   obtain ⟨⟨hn, ht⟩, hall⟩ := h
   have hz : i < (List.zip T.nametab names).length := by simp [List.length_zip]; omega
   have := hall ((List.zip T.nametab names)[i]) (List.getElem_mem hz)
   simp only [List.getElem_zip] at this
   have e := this
-  unfold keyOf
   rw [List.getD_eq_getElem?_getD, List.getD_eq_getElem?_getD, List.getElem?_eq_getElem (by omega), List.getElem?_eq_getElem (by omega)]
   simpa using e
+
+theorem names_length (T : NameTables) (names : List (List Nat)) (h : decodeOk T names = true) : names.length = T.count := by
+  simp only [decodeOk, Bool.and_eq_true, beq_iff_eq] at h; exact h.1.1
+
+theorem getD_map_names (names : List (List Nat)) (l : List Nat) (i : Nat) (h : i < l.length) :
+    (l.map fun id => names.getD id []).getD i [] = names.getD l[i] [] := by
+  rw [List.getD_eq_getElem?_getD, List.getElem?_map, List.getElem?_eq_getElem h]; rfl
+
+/-- a search position denotes an instruction id whose printed name is the position's name -/
+theorem posNames_getD (T : NameTables) (names : List (List Nat)) (hd : decodeOk T names = true) (hs : sortedIdsOk T = true)
+    (i : Nat) (hi : i < (posNames T names).length) :
+    idAt T i < T.count ∧ (posNames T names).getD i [] = names.getD (idAt T i) [] := by
+  have hlen := names_length T names hd
+  unfold posNames at hi ⊢
+  unfold idAt
+  unfold sortedIdsOk at hs
+  by_cases hl : T.sortedIds = []
+  · rw [if_pos hl] at hi ⊢
+    rw [if_pos hl]
+    exact ⟨by omega, rfl⟩
+  · rw [if_neg hl] at hi ⊢
+    rw [if_neg hl]
+    simp only [List.length_map] at hi
+    have hmem : T.sortedIds[i] ∈ T.sortedIds := List.getElem_mem hi
+    have hlt := (List.all_eq_true.mp hs) _ hmem
+    have e1 : T.sortedIds.getD i 0 = T.sortedIds[i] := by
+      rw [List.getD_eq_getElem?_getD, List.getElem?_eq_getElem hi]; rfl
+    rw [e1, getD_map_names names _ i hi]
+    exact ⟨by simpa using hlt, rfl⟩
+
+theorem keyOf_eq (T : NameTables) (names : List (List Nat)) (h : decodeOk T names = true) (hs : sortedIdsOk T = true)
+    (i : Nat) (hi : i < (posNames T names).length) : keyOf T i = (posNames T names).getD i [] := by
+  have ⟨h1, h2⟩ := posNames_getD T names h hs i hi
+  unfold keyOf
+  rw [h2, decode_at T names h _ h1]
 
 theorem findInstruction_cons (T : NameTables) (c : Nat) (cs : List Nat) :
     findInstruction T (c :: cs) =
       if c < 97 ∨ c > 122 then 0 else
       if (T.spans.getD (c - 97) (0, 0)).1 = 0 then 0 else
-      (bsearch (keyOf T) (c :: cs) ((T.spans.getD (c - 97) (0, 0)).2 - (T.spans.getD (c - 97) (0, 0)).1)
-        (T.spans.getD (c - 97) (0, 0)).1 ((T.spans.getD (c - 97) (0, 0)).2 - (T.spans.getD (c - 97) (0, 0)).1)).getD 0 := rfl
+      match bsearch (keyOf T) (c :: cs) ((T.spans.getD (c - 97) (0, 0)).2 - (T.spans.getD (c - 97) (0, 0)).1)
+        (T.spans.getD (c - 97) (0, 0)).1 ((T.spans.getD (c - 97) (0, 0)).2 - (T.spans.getD (c - 97) (0, 0)).1) with
+      | some i => idAt T i
+      | none => 0 := rfl
 
 /-- whatever `find_instruction` returns prints exactly the searched name -/
-theorem findInstruction_sound (T : NameTables) (names : List (List Nat)) (hd : decodeOk T names = true)
-    (hspans : ∀ p, (T.spans.getD p (0, 0)).2 ≤ T.count)
+theorem findInstruction_sound (T : NameTables) (names : List (List Nat)) (hd : decodeOk T names = true) (hs : sortedIdsOk T = true)
+    (hspans : ∀ p, (T.spans.getD p (0, 0)).2 ≤ (posNames T names).length)
     (s : List Nat) (hr : findInstruction T s ≠ 0) :
     findInstruction T s < T.count ∧ names.getD (findInstruction T s) [] = s := by
   cases s with
@@ -211,17 +247,19 @@ theorem findInstruction_sound (T : NameTables) (names : List (List Nat)) (hd : d
         | none => rw [hb] at hr; exact absurd rfl hr
         | some i =>
           have ⟨b1, b2, b3⟩ := bsearch_sound _ _ _ _ _ _ hb
-          have hi : i < T.count := by omega
-          show i < T.count ∧ names.getD i [] = c :: cs
-          exact ⟨hi, by rw [← keyOf_eq T names hd i hi]; exact b3⟩
+          have hi : i < (posNames T names).length := by omega
+          have ⟨p1, p2⟩ := posNames_getD T names hd hs i hi
+          show idAt T i < T.count ∧ names.getD (idAt T i) [] = c :: cs
+          exact ⟨p1, by rw [← p2, ← keyOf_eq T names hd hs i hi]; exact b3⟩
 
-/-- `find_instruction` finds id `id` by its printed name when the span of its first letter is strictly increasing -/
-theorem findInstruction_finds (T : NameTables) (names : List (List Nat)) (hd : decodeOk T names = true)
-    (id : Nat) (hin : idInSpan T names id = true) (hsp : spanOk T names (letterOf names id) = true) :
-    findInstruction T (names.getD id []) = id := by
+/-- `find_instruction` finds the id at search position `pos` by its printed name when the span of its first letter is
+    strictly increasing (`pn` = `posNames T names`) -/
+theorem findInstruction_finds (T : NameTables) (names : List (List Nat)) (hd : decodeOk T names = true) (hs : sortedIdsOk T = true)
+    (pos : Nat) (hin : idInSpan T (posNames T names) pos = true) (hsp : spanOk T (posNames T names) (letterOf (posNames T names) pos) = true) :
+    findInstruction T ((posNames T names).getD pos []) = idAt T pos := by
   unfold idInSpan at hin
   unfold letterOf at hsp
-  cases hn : names.getD id [] with
+  cases hn : (posNames T names).getD pos [] with
   | nil => rw [hn] at hin; exact absurd hin (by simp)
   | cons c cs =>
     rw [hn] at hin hsp
@@ -232,22 +270,21 @@ theorem findInstruction_finds (T : NameTables) (names : List (List Nat)) (hd : d
     simp only [spanOk, Bool.and_eq_true, bne_iff_ne, ne_eq, decide_eq_true_eq] at hsp
     obtain ⟨⟨s1, s2⟩, s3⟩ := hsp
     have hrs := rangeSorted_spec _ _ _ s3
-    have hcount : (T.spans.getD (c - 97) (0, 0)).2 ≤ T.count := by
+    have hcount : (T.spans.getD (c - 97) (0, 0)).2 ≤ (posNames T names).length := by
       simp only [rangeSorted, Bool.and_eq_true, decide_eq_true_eq] at s3
-      simp only [decodeOk, Bool.and_eq_true, beq_iff_eq] at hd
-      omega
+      exact s3.1
     rw [findInstruction_cons]
     generalize T.spans.getD (c - 97) (0, 0) = sp at *
     obtain ⟨st, en⟩ := sp
     simp only at *
     have hc : ¬ (c < 97 ∨ c > 122) := by omega
     rw [if_neg hc, if_neg s1]
-    have hf := bsearch_finds (keyOf T) (c :: cs) (en - st) st (en - st) id (Nat.le_refl _) c3 (by omega)
-      (by rw [keyOf_eq T names hd id (by omega)]; exact hn)
+    have hf := bsearch_finds (keyOf T) (c :: cs) (en - st) st (en - st) pos (Nat.le_refl _) c3 (by omega)
+      (by rw [keyOf_eq T names hd hs pos (by omega)]; exact hn)
       (by
         intro i j hi hij hj
-        rw [keyOf_eq T names hd i (by omega), keyOf_eq T names hd j (by omega), cmp_neg_iff_lexLt]
+        rw [keyOf_eq T names hd hs i (by omega), keyOf_eq T names hd hs j (by omega), cmp_neg_iff_lexLt]
         exact hrs i j hi hij (by omega))
-    rw [hf]; rfl
+    rw [hf]
 
 end AsmjitVerif.InstName
